@@ -63,6 +63,21 @@ func (u *vc06Universe) make(e vc06Ev) []byte {
 	if b, ok := u.bytes[name]; ok {
 		return b
 	}
+	if strings.HasPrefix(e.Var, "enc:") {
+		// a liberal re-encoding of the signed triple of the transaction of the same name without the variant
+		base := e
+		base.Var = ""
+		bb := u.make(base)
+		b := vc06Reencodings(bb)[strings.TrimPrefix(e.Var, "enc:")]
+		if b == nil {
+			b = append(append([]byte{}, bb...), '\n')
+		}
+		u.bytes[name] = b
+		u.clock[name] = u.clock[base.txName()]
+		u.refHex[name] = vc06HexRef(b)
+		u.byRef[vc06MustRef(u.refHex[name])] = name
+		return b
+	}
 	ring := vc06Ring()
 	lc := 0
 	var prevs []string
@@ -155,6 +170,9 @@ func (u *vc06Universe) payload(e vc06Ev) ([]byte, bool) {
 		return nil, false
 	case "wrong":
 		return []byte("wrong payload bytes"), true
+	}
+	if strings.HasPrefix(e.Var, "enc:") {
+		e.Var = "" // the payload of the transaction whose signed content is re-encoded
 	}
 	p, _ := vc06PayloadFor(e.txName())
 	return p, true
@@ -298,12 +316,17 @@ func vc06Menu(present []string, maxTx, maxPrevs int, bothOrders bool) []vc06Ev {
 			out = append(out, vc06Ev{Signer: "B1", Prevs: []string{"A()"}, Pay: "right"})
 		}
 	}
-	// re-submission of everything present
+	// re-submission of everything present, byte-identical and as liberal re-encodings of the same signed content
 	for _, n := range present {
 		e := vc06ParseName(n)
 		for _, pay := range []string{"right", "none", "wrong"} {
 			e.Pay = pay
 			out = append(out, e)
+		}
+		if e.Var == "" {
+			for _, enc := range vc06HistEncodings {
+				out = append(out, vc06Ev{Signer: e.Signer, Prevs: e.Prevs, Var: "enc:" + enc, Pay: "right"})
+			}
 		}
 	}
 	dedup := out[:0]
@@ -318,6 +341,9 @@ func vc06Menu(present []string, maxTx, maxPrevs int, bothOrders bool) []vc06Ev {
 }
 
 var vc06Ctx = context.Background()
+
+// re-encodings offered for every present transaction in every state (the input part offers the whole list)
+var vc06HistEncodings = []string{"lf-after", "crlf-inside-seg0", "cr-end-seg1", "padded-seg2", "trailing-dot", "json-flattened"}
 
 // one subscriber of each kind (the input part runs all five)
 var vc06HistSubs = []vc06Sub{{"vc06all", []string{"transaction", "payload"}, false}, {"vc06ptx", []string{"transaction"}, true}, {"vc06pl", []string{"payload"}, false}}
@@ -343,7 +369,7 @@ func TestVerifC06Histories(t *testing.T) {
 	r.Rule("histories: BFS (engine/space) over all DAGs of <= N transactions grown from the universe {signer A (embedded jwk), signer B (kid; key version 1 as of A's root, " +
 		"version 2 as of any transaction of B; B's root embeds its key)} x every ordered prevs tuple of present transactions up to size P; in every reachable state the whole menu is offered: " +
 		"valid candidates x payload {right, none, wrong}, declared clock +1/-1, signature by another key, the other key version, second roots, prevs that are not present, " +
-		"and re-submission of every present transaction x payload {right, none, wrong}. A state = set of structural transaction names read back from the real store; " +
+		"and re-submission of every present transaction x payload {right, none, wrong} and as 6 liberal re-encodings of its signed content (CR/LF, padding, trailing dot, JSON serialisation). A state = set of structural transaction names read back from the real store; " +
 		"each transition = fresh bbolt + replay of the history + one offer on the real State.Add, compared in lock-step with the reference model")
 	r.Bound("max_transactions", maxTx)
 	r.Bound("max_prevs", maxPrevs)
